@@ -604,6 +604,10 @@ func checkC20(w *World, r *Report) {
 	}
 	c20TypeNamesAsGiven(w, r)
 	c20OneYAML(w, r)
+	c20ValidatedBeforeLoaded(w, r)
+	c20FlagsFromMergedSet(w, r)
+	c20EnvUnflattened(w, r)
+	c20SliceMergeTotal(w, r)
 	// "defaults fill what neither defines": the defaults are storage the loader decodes into
 	c09DefaultsNoSharing(w, r)
 	mts, problems := c20MechanismTypes(w)
@@ -1309,4 +1313,357 @@ func c20OneYAML(w *World, r *Report) {
 	}
 	sort.Strings(l)
 	r.Ob(ri, "config-parser|one-yaml-implementation", token.NoPos, len(l) == 1, "the configuration parser uses several YAML implementations ("+strings.Join(l, ", ")+"): the same text is typed differently in the file and in an environment variable")
+}
+
+// ---- C20.11: a configuration file is validated before it is loaded -----------------------------------
+//
+// The file is checked against the schema, the environment is not; what the schema would reject in a
+// file must not get in through a file either. Decided in the loader: every use of the resolved file
+// path other than the validation itself (the load) is reachable only through the success edge of
+// the validation of that very path, the "no validator configured" edge, or the "no file" edge.
+func c20ValidatedBeforeLoaded(w *World, r *Report) {
+	ri := r.Rule("C20.11", 1, "the configuration file is loaded only after it was validated (same resolved path), unless no validator is configured")
+	n := 0
+	for _, fn := range w.Funcs {
+		if w.isMockFn(fn) || fn.Blocks == nil || fnPkgPath(fn) != modPath+"/internal/config/parser" || fn.Parent() != nil {
+			continue
+		}
+		// the validation: a call of a func-typed struct field, string -> error
+		for _, ci := range callsIn(fn) {
+			v, ok := ci.(*ssa.Call)
+			if !ok || v.Common().StaticCallee() != nil || v.Common().IsInvoke() || len(v.Common().Args) != 1 {
+				continue
+			}
+			_, vf := fieldLoad(v.Common().Value)
+			if vf == nil || !isString(v.Common().Args[0].Type()) || !lastResultIsError(v.Common().Signature()) {
+				continue
+			}
+			F := v.Common().Args[0]
+			// the variable holding the path (spilled to an alloc when closures capture it)
+			var FA *ssa.Alloc
+			if u, isU := F.(*ssa.UnOp); isU && u.Op == token.MUL {
+				FA, _ = u.X.(*ssa.Alloc)
+			}
+			isF := func(x ssa.Value) bool {
+				if x == F {
+					return true
+				}
+				if u, isU := x.(*ssa.UnOp); isU && u.Op == token.MUL && FA != nil && u.X == ssa.Value(FA) {
+					return true
+				}
+				return false
+			}
+			// the uses of the path: calls taking it, closures capturing it
+			var uses []ssa.Instruction
+			eachInstr(fn, func(in ssa.Instruction) {
+				if in == ssa.Instruction(v) {
+					return
+				}
+				switch x := in.(type) {
+				case ssa.CallInstruction:
+					if b, isB := x.Common().Value.(*ssa.Builtin); isB && b.Name() == "len" {
+						return
+					}
+					for _, a := range x.Common().Args {
+						if isF(a) {
+							uses = append(uses, in)
+						}
+					}
+				case *ssa.MakeClosure:
+					for _, b := range x.Bindings {
+						if isF(b) || (FA != nil && b == ssa.Value(FA)) {
+							uses = append(uses, in)
+						}
+					}
+				}
+			})
+			if len(uses) == 0 {
+				continue
+			}
+			n++
+			r.Analysed(w.FnName(fn))
+			fv := vf
+			allowed := func(f Fact) bool {
+				if f.Kind == FNil {
+					if isResult(v, errIdx(v))(f.V) {
+						return true
+					}
+					if _, lf := fieldLoad(f.V); lf == fv {
+						return true // no validator configured
+					}
+				}
+				if l, kd := lenFact(f); l != nil && kd == "empty" && isF(l) {
+					return true // no file
+				}
+				return false
+			}
+			ok2, pos := true, v.Pos()
+			for _, u := range uses {
+				if !onlyVia(fn, u.Block(), allowed) {
+					ok2 = false
+					if u.Pos().IsValid() {
+						pos = u.Pos()
+					}
+				}
+			}
+			r.Ob(ri, w.FnName(fn)+"|validated-before-loaded", pos, ok2, "the resolved configuration file is used (loaded) on a path that did not pass its validation although a validator is configured: a file found through the lookup directories is accepted with content the schema rejects")
+		}
+	}
+	if n == 0 {
+		r.Undecided(ri, "the configuration loader's validation step was not found")
+	}
+}
+
+// ---- C20.12: flags are read from the merged flag set ---------------------------------------------------
+//
+// The config file path and the prefix of the environment variables are flags of a parent command.
+// cobra's PersistentFlags()/LocalFlags() of a sub-command do not contain inherited flags; a Get* on
+// them fails, the error is ignored by convention, and the option silently becomes its zero value:
+// with an empty prefix every environment variable is read as configuration and the documented
+// HEIMDALLCFG_ variables are ignored. Decided for every flag read in the cmd packages: the flag
+// set is cmd.Flags() (or InheritedFlags()).
+func c20FlagsFromMergedSet(w *World, r *Report) {
+	ri := r.Rule("C20.12", 5, "command line options (config file, environment prefix, ...) are read from the command's merged flag set, not from a set that lacks inherited flags")
+	n := 0
+	for _, fn := range w.Funcs {
+		if fn.Blocks == nil || !(fnPkgPath(fn) == modPath+"/cmd" || strings.HasPrefix(fnPkgPath(fn), modPath+"/cmd/")) {
+			continue
+		}
+		for _, c := range callsIn(fn) {
+			nm := callName(c.Common())
+			if !strings.Contains(nm, "pflag.FlagSet.Get") {
+				continue
+			}
+			n++
+			r.Analysed(w.FnName(fn))
+			set := ""
+			if sc, _ := resultOfCall(callRecv(c.Common())); sc != nil {
+				set = callName(sc.Common())
+			}
+			flag := ""
+			if a := callArgs(c.Common()); len(a) > 0 {
+				flag, _ = constString(a[0])
+			}
+			ok := !strings.HasSuffix(set, "Command.PersistentFlags") && !strings.HasSuffix(set, "Command.LocalFlags") && !strings.HasSuffix(set, "Command.LocalNonPersistentFlags")
+			if !ok {
+				// the command's own flag, registered in the same package on the same kind of set
+				var regs []ssa.CallInstruction
+				for _, g := range w.Funcs {
+					if fnPkgPath(g) == fnPkgPath(fn) && g.Blocks != nil {
+						regs = append(regs, callsIn(g)...)
+					}
+				}
+				for _, rc := range regs {
+					rn := callName(rc.Common())
+					if !strings.Contains(rn, "pflag.FlagSet.") || strings.Contains(rn, "pflag.FlagSet.Get") {
+						continue
+					}
+					if a := callArgs(rc.Common()); len(a) > 0 {
+						if nm2, isC := constString(a[0]); isC && nm2 == flag {
+							if sc2, _ := resultOfCall(callRecv(rc.Common())); sc2 != nil && callName(sc2.Common()) == set {
+								ok = true
+							}
+						}
+					}
+				}
+			}
+			r.Ob(ri, fmt.Sprintf("%s|flag-read|%s", w.FnName(fn), flag), c.Pos(), ok, "the flag '"+flag+"' is read from "+set+", which does not contain flags inherited from the parent command: the lookup fails, its error is ignored and the option silently becomes empty")
+		}
+	}
+	if n == 0 {
+		r.Undecided(ri, "no flag is read in the cmd packages")
+	}
+}
+
+// ---- C20.13: environment-derived list elements are nested before they are merged --------------------
+//
+// An environment variable addresses a property inside a list element by a path
+// (..._AUTHENTICATORS_0_CONFIG_SUBJECT_ID); the environment parser keeps the rest of the path as one
+// flat key of the element ("config.subject.id"). The decoder knows no such key: unless the
+// environment's structure is un-flattened before it is merged and decoded, a property given this
+// way is silently lost, while the same property written in the file takes effect. Decided where the
+// loader obtains the environment's configuration: what it hands on passed through maps.Unflatten.
+func c20EnvUnflattened(w *World, r *Report) {
+	ri := r.Rule("C20.13", 1, "the configuration read from the environment is converted into nested structures (maps.Unflatten, also inside list elements) before it is merged and decoded")
+	pkg := modPath + "/internal/config/parser"
+	// the environment loader: the function of the parser package that uses koanf's env provider
+	var envLoader *ssa.Function
+	for _, fn := range w.Funcs {
+		if fnPkgPath(fn) != pkg || fn.Parent() != nil || fn.Blocks == nil || w.isMockFn(fn) {
+			continue
+		}
+		for _, g := range withClosures(fn) {
+			if len(findCalls(g, func(c *ssa.CallCommon) bool { return strings.Contains(callName(c), "koanf/providers/env.Provider") })) > 0 {
+				envLoader = fn
+			}
+		}
+	}
+	if envLoader == nil {
+		r.Undecided(ri, "the function reading the environment (koanf env provider) was not found")
+		return
+	}
+	reachesUnflatten := func(f *ssa.Function) bool {
+		if f == nil {
+			return false
+		}
+		reach, _ := w.CG().Reachable([]*ssa.Function{f}, func(g *ssa.Function) bool { return !w.inModule(g) })
+		reach[f] = nil
+		for g := range reach {
+			if g.Blocks == nil {
+				continue
+			}
+			if len(findCalls(g, func(c *ssa.CallCommon) bool { return strings.HasSuffix(callName(c), "koanf/maps.Unflatten") })) > 0 {
+				return true
+			}
+		}
+		return false
+	}
+	n := 0
+	for _, fn := range w.Funcs {
+		if fnPkgPath(fn) != pkg || fn.Blocks == nil || w.isMockFn(fn) || fn == envLoader {
+			continue
+		}
+		root := fn
+		for root.Parent() != nil {
+			root = root.Parent()
+		}
+		if root == envLoader {
+			continue
+		}
+		for _, ec := range findCalls(fn, func(c *ssa.CallCommon) bool { return c.StaticCallee() == envLoader }) {
+			n++
+			r.Analysed(w.FnName(fn))
+			var ev ssa.Value = ec
+			fromEnv := func(v ssa.Value) bool {
+				return dependsOn(w, v, func(x ssa.Value) bool {
+					if x == ev {
+						return true
+					}
+					ex, isEx := x.(*ssa.Extract)
+					return isEx && ex.Tuple == ev
+				})
+			}
+			// some call in this function takes the environment's data through maps.Unflatten ...
+			passes := false
+			for _, c := range callsIn(fn) {
+				callee := c.Common().StaticCallee()
+				direct := strings.HasSuffix(callName(c.Common()), "koanf/maps.Unflatten")
+				if !direct && (callee == nil || !w.inModule(callee) || !reachesUnflatten(callee)) {
+					continue
+				}
+				for _, a := range c.Common().Args {
+					if fromEnv(a) {
+						passes = true
+					}
+				}
+			}
+			// ... and the loader's own result is not handed on as it is
+			rawOut := false
+			for _, ret := range returnsOf(fn) {
+				for _, rv := range ret.Results {
+					for _, o := range w.Origins(rv, nil) {
+						if ex, isEx := o.(*ssa.Extract); isEx && ex.Tuple == ev && !isErrorType(ex.Type()) {
+							rawOut = true
+						}
+					}
+				}
+			}
+			r.Ob(ri, w.FnName(fn)+"|env-structure-nested", ec.Pos(), passes && !rawOut, "the configuration read from the environment is merged as the environment parser produced it: the elements of lists keep path-like keys (config.subject.id), which the decoder ignores - a property inside a list element that is set by a single environment variable is lost")
+		}
+	}
+	if n == 0 {
+		r.Undecided(ri, "the environment loader is never called")
+	}
+}
+
+// ---- C20.14: in a list merge every defined source element takes effect ---------------------------------
+//
+// The environment wins per leaf - also for the leaves that are elements of a list. In the function
+// that merges two lists element by element, an iteration whose source element is defined (non-nil)
+// must end with a store into the same position of the result: a case analysis over the kind of the
+// element already there that has no branch for plain values leaves the file's value in place.
+func c20SliceMergeTotal(w *World, r *Report) {
+	ri := r.Rule("C20.14", 1, "when two lists are merged, every defined element of the overriding list is stored into the result (whatever kind of value is already there)")
+	n := 0
+	for _, fn := range w.Funcs {
+		if fn.Blocks == nil || fn.Parent() != nil || fnPkgPath(fn) != modPath+"/internal/config/parser" || len(fn.Params) != 2 {
+			continue
+		}
+		isAnySlice := func(t types.Type) bool {
+			sl, ok := t.Underlying().(*types.Slice)
+			if !ok {
+				return false
+			}
+			it, ok := sl.Elem().Underlying().(*types.Interface)
+			return ok && it.NumMethods() == 0
+		}
+		if !isAnySlice(fn.Params[0].Type()) || !isAnySlice(fn.Params[1].Type()) || fn.Signature.Results().Len() != 1 {
+			continue
+		}
+		src := fn.Params[1]
+		// the element of the source in an iteration: a load of src[i]
+		eachInstr(fn, func(in ssa.Instruction) {
+			ld, ok := in.(*ssa.UnOp)
+			if !ok || ld.Op != token.MUL {
+				return
+			}
+			ia, ok := ld.X.(*ssa.IndexAddr)
+			if !ok || stripConv(ia.X) != ssa.Value(src) {
+				return
+			}
+			n++
+			r.Analysed(w.FnName(fn))
+			hb := ld.Block() // the loop body block loading the element
+			// stores into an element of a slice of the same type at the same index
+			isStoreHere := func(b *ssa.BasicBlock) bool {
+				for _, x := range b.Instrs {
+					if st, ok := x.(*ssa.Store); ok {
+						if sia, ok := st.Addr.(*ssa.IndexAddr); ok && sia.Index == ia.Index && stripConv(sia.X) != ssa.Value(src) {
+							return true
+						}
+					}
+				}
+				return false
+			}
+			// from the body, without passing a store and without the "element is nil" edge: can the next
+			// iteration (a block that reaches the body again) or the return be reached?
+			total := true
+			seen := map[*ssa.BasicBlock]bool{}
+			var walk func(b *ssa.BasicBlock)
+			walk = func(b *ssa.BasicBlock) {
+				if seen[b] || !total {
+					return
+				}
+				seen[b] = true
+				if isStoreHere(b) {
+					return
+				}
+				for si, sx := range b.Succs {
+					skip := false
+					for _, f := range edgeFacts(b, si) {
+						if f.Kind == FNil && (f.V == ssa.Value(ld) || sameValue(f.V, ld)) {
+							skip = true // the source does not define this element
+						}
+					}
+					if skip {
+						continue
+					}
+					if sx == hb || (len(sx.Instrs) > 0 && func() bool { _, isRet := sx.Instrs[len(sx.Instrs)-1].(*ssa.Return); return isRet }()) || (reach(sx, nil)[hb] && !b.Dominates(sx) && sx.Dominates(hb)) {
+						total = false
+						return
+					}
+					walk(sx)
+				}
+			}
+			walk(hb)
+			pos := ld.Pos()
+			if !pos.IsValid() {
+				pos = fn.Pos()
+			}
+			r.Ob(ri, fmt.Sprintf("%s|defined-element-stored#%d", w.FnName(fn), n), pos, total, "an iteration with a defined element of the overriding list can end without a store into the result: an override of a plain list element (a value from the environment against one from the file) is ignored")
+		})
+	}
+	if n == 0 {
+		r.Undecided(ri, "no element-wise list merge found in the configuration parser")
+	}
 }
